@@ -1421,6 +1421,11 @@ Proof.
   - vm_compute. eexists. split; [reflexivity|discriminate].
 Qed.
 
+Definition ex_t : target :=
+  Eval vm_compute in
+    match assoc "t" (c_targets ex_c) with Some t => t | None => new_target "t" ex_cfg end.
+Definition ex_reset := Eval vm_compute in target_reset ex_t 4.
+
 Example ex_reset_hyps :
   exists t t' feed,
     assoc "t" (c_targets ex_c) = Some t /\
@@ -1429,19 +1434,13 @@ Example ex_reset_hyps :
     lookup (t_tree t) ["a"; "b"] <> None /\ lookup (t_tree t) ["a"; "c"] <> None /\
     md_get_bool (t_meta t) md_sync = Some true /\ md_get_int (t_meta t) md_leaf_count = Some 2.
 Proof.
-  destruct (assoc "t" (c_targets ex_c)) as [t|] eqn:Ha; [|vm_compute in Ha; discriminate].
-  destruct (reachable_target ex_cfg ["t"; "u"] ex_ops "t" t Ha) as (Hwf & Hnm & _).
-  assert (Et : Some t = assoc "t" (c_targets ex_c)) by (symmetry; exact Ha).
-  vm_compute in Et. inversion Et as [Ht]. clear Et.
-  destruct (target_reset t 4) as [[t' feed] po] eqn:Er.
-  exists t, t', feed. split; [reflexivity|]. split; [exact Hwf|].
-  split; [rewrite Hnm; discriminate|].
-  split; [apply calm_b_sound; [exact Hwf|rewrite Ht; vm_compute; reflexivity]|].
-  assert (Hpo : po = None).
-  { assert (E2 : snd (target_reset t 4) = po) by now rewrite Er.
-    rewrite <- E2. rewrite Ht. vm_compute. reflexivity. }
-  subst po. split; [reflexivity|].
-  rewrite Ht. vm_compute. repeat split; discriminate.
+  assert (Ha : assoc "t" (c_targets ex_c) = Some ex_t) by (vm_compute; reflexivity).
+  destruct (reachable_target ex_cfg ["t"; "u"] ex_ops "t" ex_t Ha) as (Hwf & Hnm & _).
+  exists ex_t, (fst (fst ex_reset)), (snd (fst ex_reset)).
+  split; [exact Ha|]. split; [exact Hwf|]. split; [rewrite Hnm; discriminate|].
+  split; [apply calm_b_sound; [exact Hwf|vm_compute; reflexivity]|].
+  split; [vm_compute; reflexivity|].
+  vm_compute. repeat split; discriminate.
 Qed.
 
 Example ex_remove_hyps : cinv ex_c /\ "t"%string <> "*"%string /\ cache_has_target ex_c "t" = true.
